@@ -47,7 +47,7 @@ def slices(ctx):
         s["poly-depth2"] = (dict(FULL, Quarters=[1, 2], Shifts=[(1, 0), (-2, 1)], Factors=[(-1, 1), (2, 1), (-1, -2)], Origins=[(0, 0)],
                                  Boxes=[B_OVER, B_ADJ], MaxBoxes=2, MaxOps=2, PolyOps=pa.POLY_OPS, DevOps=[]), True)
         s["setops-depth3"] = (dict(MINI, Boxes=[B_OVER, B_ADJ], MinBoxes=2, MaxBoxes=2, MaxOps=3, Chained=True, PolyOps=["setop"], DevOps=[]), True)
-        s["devices-depth3"] = (dict(MINI, Origins=[(0, 0), (1, -1)], Boxes=[B_BIG, B_IN], MinBoxes=2, MaxBoxes=2, MaxOps=3, Chained=True, PolyOps=["translate", "poke"], DevOps=pa.DEV_OPS,
+        s["devices-depth3"] = (dict(MINI, Origins=[(0, 0), (1, -1)], Boxes=[B_BIG, B_IN], MinBoxes=2, MaxBoxes=2, MaxOps=3, Chained=True, PolyOps=["translate"], DevOps=pa.DEV_OPS,
                                     ProbeModes=["none", "inside", "outside"]), True)
     else:
         # thorough: full enumeration with VIEW for the clauses; the exported (replayed) part of the depth-3 slices is the
@@ -58,7 +58,7 @@ def slices(ctx):
         dev3 = dict(MINI, Origins=[(0, 0), (1, -1)], Boxes=[B_BIG, B_IN, B_OUT], MaxBoxes=3, MaxOps=3, PolyOps=["translate", "poke"], DevOps=pa.DEV_OPS,
                     ProbeModes=["none", "inside", "outside"])
         s["devices-depth3"] = (dev3, False)
-        s["devices-depth3-chained"] = (dict(dev3, Chained=True, ProbeModes=["inside"]), True)
+        s["devices-depth3-chained"] = (dict(dev3, Chained=True, ProbeModes=["inside"], MaxBoxes=2), True)
         s["devices-depth3-chained-2boxes"] = (dict(dev3, Chained=True, Boxes=[B_BIG, B_IN], MinBoxes=2, MaxBoxes=2), True)
         pd3 = dict(MINI, Boxes=[B_OVER, B_ADJ], MaxBoxes=2, MaxOps=3, PolyOps=pa.POLY_OPS, DevOps=[])
         s["poly-depth3"] = (pd3, False)
@@ -104,7 +104,7 @@ def run(ctx):
     T0 = time.time()
     ph = ctx.cov.setdefault('phase_s', {})
     sl = slices(ctx)
-    sl.update(random_slices(ctx, 2 if ctx.quick else 16))
+    sl.update(random_slices(ctx, 2 if ctx.quick else 10))
     ctx.cov["bounds"] = {k: {kk: (vv if kk != "Boxes" or len(vv) <= 6 else f"{len(vv)} boxes") for kk, vv in b.items()}
                          for k, (b, _) in sl.items()}
     ctx.cov["bounds"]["grid"] = "6x6 unit cells centred at the origin; transforms enabled while the image stays inside"
@@ -132,7 +132,7 @@ def run(ctx):
     ctx.cov["exhaustive"] = True
     exported = [(n, cs) for n, cs in done if cs is not None]
     rnd = random.Random(ctx.seed)
-    cap = 1500 if ctx.quick else 20000
+    cap = 1200 if ctx.quick else 9000
     chains, origin = [], []
     ctx.cov["behaviours_exported"] = {}
     for name, cs in exported:
@@ -180,8 +180,12 @@ def run(ctx):
     opcount = collections.Counter()
     frames = collections.Counter()
     probe_ops = collections.Counter()
+    xi_ops = collections.Counter()
     for n, m in enumerate(meta):
         frames[m["frame"]] += 1
+        for st, e in zip(chains[n], m["ops"]):
+            if st["o"]["op"] in ("devtranslate", "devrotate", "devscale") and e[3] == "ok":
+                xi_ops["%s%s xi=%s" % (st["o"]["op"], " inplace" if st["o"]["inplace"] else "", m["xi"])] += 1
         seen_probes = False
         for st, e in zip(chains[n], m["ops"]):
             o = st["o"]
@@ -202,6 +206,12 @@ def run(ctx):
     ctx.cov["boxes_built_through_the_angle_argument"] = dict(tilted)
     if not ctx.violations and (tilted["angle 90, not symmetric under the tilt"] < 20 or tilted["angle 270, not symmetric under the tilt"] < 20):
         raise core.MachineryFailure("C18: too few asymmetric boxes built with angle=90 / 270 (vacuous)")
+    ctx.cov["device_transforms_per_coherence_length"] = dict(xi_ops)
+    if not ctx.violations:
+        for xi in pa.XIS:
+            for k in (f"devtranslate xi={xi}", f"devtranslate inplace xi={xi}", f"devrotate xi={xi}", f"devscale xi={xi}"):
+                if xi_ops[k] < 5:
+                    raise core.MachineryFailure(f"C18: only {xi_ops[k]} executions of {k} (vacuous)")
     ctx.cov["chains_per_frame"] = dict(frames)
     ctx.cov["probe_point_operations"] = dict(probe_ops)
     if not ctx.violations:
@@ -233,6 +243,9 @@ def run(ctx):
                 raise core.MachineryFailure(f"C18: {kind} never observed with outcome {out}")
     ctx.cov["relation_setops_validated"] = sum(t["nset"] for t in rel_tr)
     ctx.cov["relation_device_probe_transforms"] = sum(t["nprobe"] for t in rel_tr)
+    ctx.cov["relation_devices_per_coherence_length"] = dict(collections.Counter(str(t["xi"]) for t in rel_tr))
+    if not ctx.violations and sum(1 for t in rel_tr if t["xi"] != 1.0) < 30:
+        raise core.MachineryFailure("C18: too few relation traces with a device whose coherence length is not 1 (vacuous)")
     ctx.cov["relation_primitive_cases"] = dict(sum((collections.Counter(t["nprim"]) for t in rel_tr), collections.Counter()))
     if not ctx.violations:
         for k in ("box tilted (not a multiple of 180, w != h)", "ellipse tilted (not a multiple of 180, a != b)", "geometry.rotate"):
